@@ -10,5 +10,5 @@ func (m *Manager) GetWAL() *wal.WAL {
 	m.mu.RLock()
 	defer m.mu.RUnlock()
 
-	return m.wal
+	return m.getWAL()
 }
